@@ -94,6 +94,7 @@ KindsAll == {"pipe", "valve", "flow_control", "press_control", "pump", "heat_exc
              "heat_consumer", "circ_pump_mass", "circ_pump_pressure"}
 KindsCore == {"pipe", "valve", "flow_control", "press_control", "heat_consumer", "circ_pump_pressure"}
 KindsPipe == {"pipe"}
+KindsGas == {"pipe", "valve", "compressor", "flow_control", "press_control"}
 KindsCtl == {"pipe", "press_control", "flow_control", "circ_pump_mass"}
 NKindsAll == {<<"ext_grid", "p">>, <<"ext_grid", "t">>, <<"sink", "">>}
 NKindsTherm == {<<"ext_grid", "p">>, <<"ext_grid", "t">>, <<"ext_grid", "pt">>, <<"sink", "">>}
